@@ -227,3 +227,31 @@ def enclosing_stmt(node: ast.AST, pm: dict[ast.AST, ast.AST]) -> ast.stmt | None
     while cur is not None and not isinstance(cur, ast.stmt):
         cur = pm.get(cur)
     return cur
+
+
+def single_defs(fn: ast.AST) -> dict[str, ast.AST]:
+    """Local names of a function that are bound exactly once, by a plain ``name = value`` assignment -> that value."""
+    seen: dict[str, list[ast.AST | None]] = {}
+    for n in walk_body(fn.body):
+        if isinstance(n, ast.Assign) and len(n.targets) == 1 and isinstance(n.targets[0], ast.Name):
+            seen.setdefault(n.targets[0].id, []).append(n.value)
+        elif isinstance(n, ast.AnnAssign) and isinstance(n.target, ast.Name) and n.value is not None:
+            seen.setdefault(n.target.id, []).append(n.value)
+        elif isinstance(n, ast.Name) and isinstance(n.ctx, (ast.Store, ast.Del)):
+            seen.setdefault(n.id, []).append(None)
+    out = {}
+    for k, v in seen.items():
+        vals = [x for x in v if x is not None]
+        # every plain assignment also shows up once as a Store name: one value and one store means a single binding
+        if len(vals) == 1 and len(v) == 2:
+            out[k] = vals[0]
+    return out
+
+
+def resolve_local(fn: ast.AST, expr: ast.AST | None, depth: int = 4) -> ast.AST | None:
+    """Follow ``expr`` through singly-bound locals (copies / hoisted sub-expressions) to the expression that produces the value."""
+    defs = single_defs(fn)
+    while depth and isinstance(expr, ast.Name) and expr.id in defs:
+        expr = defs[expr.id]
+        depth -= 1
+    return expr
